@@ -28,6 +28,7 @@ def build_root(d, keys, r, base, tag):
 def concretise(case, r, seed):
     nk = len(case["e"])
     keys = ve._keys(nk, seed)
+    metadata.SHADOW_POOL = list(keys.pub.values())
     base = r.choice(metadata.VERSION_BASES)
     tdoc = build_root(case["t"], keys, r, base, "trusted")
     trusted = {"signatures": {}, "signed": tdoc}
@@ -45,19 +46,23 @@ def concretise(case, r, seed):
     new = {"signatures": sigs, "signed": ndoc}
     gamma.prime_related(case, keys, sigs, qdoc)
     metadata.apply_envelope(new, case["n"]["wfc"], r)
+    if r.random() < 0.3 and isinstance(new, dict) and isinstance(new.get("signed"), dict):
+        # the offered root was made from the trusted one by copy-and-edit: equal parts (key lists, rules, delegation maps) are the same objects
+        new["signed"] = gamma.share_equal_parts(new["signed"], trusted, r, 0.8)
     return trusted, new
 
 
 def run_one(case, r, seed, variant="main"):
     trusted, new = concretise(case, r, seed)
     snap = (copy.deepcopy(trusted), copy.deepcopy(new))
-    enc = r.choice(["utf-8"] * 5 + ["ascii", "ascii", "latin-1", "cp1252", "cp437"])      # verdicts must not depend on stdout's encoding
+    enc = r.choice(["utf-8"] * 10 + ["ascii", "ascii", "ascii", "latin-1", "latin-1", "cp1252", "cp1252", "cp437", "cp437"] + lib.BROKEN_STDOUTS)      # verdicts must not depend on stdout
     out, exc, printed = lib.call(lib.cct("authentication").verify_root, trusted, new, encoding=enc)
     try:
         mutated = twin_canon(trusted) != twin_canon(snap[0]) or twin_canon(new) != twin_canon(snap[1])
     except TypeError:
         mutated = repr(trusted) != repr(snap[0]) or repr(new) != repr(snap[1])
     return {"variant": variant, "observed": out, "exc": exc, "allowed": case["allowed"], "mutated": mutated, "stdout_encoding": enc,
+            "unjudged": enc.startswith("broken:") and out != "accept",      # with a dead stdout only a wrongful acceptance is judged
             "concrete": {"trusted": snap[0], "offered": snap[1]}, "case": case}
 
 
@@ -83,6 +88,8 @@ def _work(args):
         for o in obs:
             res["n"] += 1
             res["accepts"] += o["observed"] == "accept"
+            if o.get("unjudged"):
+                continue
             if lib.family(o["observed"]) not in o["allowed"] or o.get("mutated"):
                 res["bad"].append(o)
         trivial = all(v[0] == "absent" for v in case["e"])
